@@ -70,6 +70,14 @@ fn from_mapping(m: &Mapping) -> Seg {
 }
 
 pub fn crate_decode(s: &str) -> Vec<Seg> {
+  if s.len() > 2000 {
+    // long strings are decoded on an ordinary 2 MiB stack
+    return crate::runner::on_small_stack(|| crate_decode_here(s));
+  }
+  crate_decode_here(s)
+}
+
+fn crate_decode_here(s: &str) -> Vec<Seg> {
   let m = SourceMap::new(s, Vec::<String>::new(), Vec::<String>::new(), Vec::<String>::new());
   let a: Vec<Seg> = decode_mappings(&m).map(|m| from_mapping(&m)).collect();
   let b: Vec<Seg> = m.decoded_mappings().map(|m| from_mapping(&m)).collect();
@@ -110,7 +118,8 @@ fn seq_strategy() -> BoxedStrategy<Case> {
       for (k, (cs, cw, step, pick, flip_name, fresh)) in v.into_iter().enumerate() {
         match step {
           0 => {
-            l += 1 + (cs as u32 % 3) + if cw == 0 { 200 } else { 0 };
+            // (now and then a gap of a few hundred lines; rarely one of tens of thousands)
+            l += 1 + (cs as u32 % 3) + if cw == 0 { 200 } else { 0 } + if cw == 1 && cs % 64 == 0 { 70_000 + (cs as u32) * 2 } else { 0 };
             c = if cs % 2 == 0 { 0 } else { big(cs, cw) };
           }
           _ => {
